@@ -101,8 +101,14 @@ def gate(prop_id: str, thorough=False):
             out["build_log_tail"] = log[-1500:]
         names = theorems_of(prop_id)
         out["obligations"] = len(names)
-        rc, log = _run(["lake", "build", f"Properties.{prop_id}"])
-        if rc != 0:
+        if not names:
+            # no theorem file for this property (claimed as exploration): only the model/driver/translators are gated
+            rc, log = 0, ""
+        else:
+            rc, log = _run(["lake", "build", f"Properties.{prop_id}"])
+        if not names:
+            pass
+        elif rc != 0:
             out["ok"] = False
             out["failures"].append(f"Properties.{prop_id} does not build")
             out["build_log_tail"] = log[-2500:]
